@@ -30,7 +30,7 @@ ASSUMPTIONS = ['documented exceptions: estimate state (transform, bias) of Estim
                'EstimationModel / Parameters / Turntable methods may change their own object but never their arguments',
                'Turntable.generate_imu is excluded: it raises at baseline under scipy 1.18 (test_Turntable fails in BASELINE.json)',
                'values across argument forms compared to <= 4 ulp of the result scale (spline-based synthesis: 2e4 ulp, i.e. 4e-12 relative, because memory layout changes summation order); repeats of the same form bitwise']
-REQUIRED_OBS = ['module_state_checks', 'callables_enumerated', 'callables_with_spec', 'purity_checks', 'readonly_runs', 'determinism_checks',
+REQUIRED_OBS = ['permuted_column_runs', 'integer_form_comparisons', 'index_name_runs', 'history_replays', 'module_state_checks', 'callables_enumerated', 'callables_with_spec', 'purity_checks', 'readonly_runs', 'determinism_checks',
                 'form_comparisons', 'schema_checks', 'ambient_calls_checked']
 REQUIRED_CLASSES = {'all': ['directed', 'ambient']}
 MODULES = ['earth', 'error_model', 'filters', 'inertial_sensor', 'kalman', 'measurements', 'sim', 'strapdown', 'transform', 'util']
@@ -138,7 +138,7 @@ def fixtures():
 
 class Call:
     def __init__(self, label, fn, args, kwargs=None, vary=(), schema=None, seed_arg=None, ulp=4, self_obj=None,
-                 self_allowed=(), compare=True, single=None, table_forms=(), nd=()):
+                 self_allowed=(), compare=True, single=None, table_forms=(), nd=(), no_int=(), history=True, labelled=()):
         self.label = label
         self.fn = fn
         self.args = list(args)
@@ -152,6 +152,9 @@ class Call:
         self.compare = compare
         self.single = single               # (row selector for args, row selector for result) for stacked vs single
         self.table_forms = list(table_forms)
+        self.no_int = set(no_int)          # positions whose integer-rounded values are not a valid input (strictly increasing times)
+        self.labelled = list(labelled)     # positions of label-addressed tables / series (Trajectory, Pva, Imu, Increments, measurement data)
+        self.history = history             # replay f(a) -> overwrite a in place -> f(a) against f(fresh copy)
         self.nd = list(nd)                 # positions documented as ndarray: only read-only / Fortran-ordered forms   # positions of ndarray args that also accept a DataFrame / Series
 
 
@@ -193,17 +196,17 @@ def specs(rng):
     add('transform.mat_from_rph', Call('stack', transform.mat_from_rph, [rph], vary=[0], single=row0))
     add('transform.mat_to_rph', Call('stack', transform.mat_to_rph, [transform.mat_from_rph(rph)], vary=[0], single=row0))
     add('transform.translate_trajectory', Call('traj', transform.translate_trajectory, [traj, np.array([1., 2, 3])], vary=[1],
-                                               schema=schema_trajectory),
-        Call('pva+rates', transform.translate_trajectory, [pd.concat([traj.iloc[3], pd.Series([.1, .2, .3], index=RATE)]), np.array([1., 2, 3])], vary=[1]))
-    add('transform.resample_state', Call('traj', transform.resample_state, [traj, t[::3] + 0.013], vary=[1]))
-    add('transform.compute_state_difference', Call('frames', transform.compute_state_difference, [traj, traj.iloc[::2] * 1.0], schema=schema_traj_error),
-        Call('frames-swapped', transform.compute_state_difference, [traj.iloc[::2] * 1.0, traj], schema=schema_traj_error),
-        Call('series', transform.compute_state_difference, [traj.iloc[1], traj.iloc[2]]))
+                                               schema=schema_trajectory, labelled=[0]),
+        Call('pva+rates', transform.translate_trajectory, [pd.concat([traj.iloc[3], pd.Series([.1, .2, .3], index=RATE)]), np.array([1., 2, 3])], vary=[1], labelled=[0]))
+    add('transform.resample_state', Call('traj', transform.resample_state, [traj, t[::3] + 0.013], vary=[1], labelled=[0]))
+    add('transform.compute_state_difference', Call('frames', transform.compute_state_difference, [traj, traj.iloc[::2] * 1.0], schema=schema_traj_error, labelled=[0, 1]),
+        Call('frames-swapped', transform.compute_state_difference, [traj.iloc[::2] * 1.0, traj], schema=schema_traj_error, labelled=[0, 1]),
+        Call('series', transform.compute_state_difference, [traj.iloc[1], traj.iloc[2]], labelled=[0, 1]))
     from scipy.spatial.transform import Rotation
     rots = Rotation.from_euler('xyz', traj[RPH].values, True)
     add('transform.smooth_rotations', Call('rot', transform.smooth_rotations, [rots, 0.1, 0.5]), Call('rot-0.26', transform.smooth_rotations, [rots, 0.1, 0.26]),
         Call('rot-0.34', transform.smooth_rotations, [rots, 0.1, 0.34]))
-    add('transform.smooth_state', Call('traj', transform.smooth_state, [traj, 0.5]), Call('traj-0.26', transform.smooth_state, [traj, 0.26]),
+    add('transform.smooth_state', Call('traj', transform.smooth_state, [traj, 0.5], labelled=[0]), Call('traj-0.26', transform.smooth_state, [traj, 0.26]),
         Call('traj-0.34', transform.smooth_state, [traj, 0.34]))
     # ---- util
     a3 = rng.standard_normal((n, 3, 3))
@@ -220,23 +223,23 @@ def specs(rng):
     # ---- sim
     for st in ('rate', 'increment'):
         sch = lambda r: schema_trajectory(r[0]) or schema_imu(r[1])      # noqa: E731
-        add('sim.generate_imu', Call('pos+vel/' + st, sim.generate_imu, [t, L, R, V, st], vary=[0, 1, 2, 3], schema=sch, ulp=20000),
-            Call('pos/' + st, sim.generate_imu, [t, L, R, None, st], vary=[0, 1, 2], schema=sch, ulp=20000),
-            Call('init+vel/' + st, sim.generate_imu, [t, L[0].copy(), R, V, st], vary=[0, 1, 2, 3], schema=sch, ulp=20000))
+        add('sim.generate_imu', Call('pos+vel/' + st, sim.generate_imu, [t, L, R, V, st], vary=[0, 1, 2, 3], schema=sch, ulp=20000, no_int=[0]),
+            Call('pos/' + st, sim.generate_imu, [t, L, R, None, st], vary=[0, 1, 2], schema=sch, ulp=20000, no_int=[0]),
+            Call('init+vel/' + st, sim.generate_imu, [t, L[0].copy(), R, V, st], vary=[0, 1, 2, 3], schema=sch, ulp=20000, no_int=[0]))
     add('sim.generate_sine_velocity_motion',
         Call('sine', sim.generate_sine_velocity_motion, [0.1, 5, np.array([50., 60, 100]), np.array([1., 2, 0]), np.array([1., 1, 0]), 10, np.array([0., 90, 0])],
              vary=[2, 3, 4, 6], schema=lambda r: schema_trajectory(r[0]) or schema_imu(r[1]), ulp=20000))
     sub = traj.iloc[5::10]
-    add('sim.generate_position_measurements', Call('seeded', sim.generate_position_measurements, [sub, 1.0], seed_arg='rng',
+    add('sim.generate_position_measurements', Call('seeded', sim.generate_position_measurements, [sub, 1.0], seed_arg='rng', labelled=[0],
                                                    schema=lambda r: None if list(r.columns) == LLA and r.index.equals(sub.index) else f'columns {list(r.columns)}'))
-    add('sim.generate_ned_velocity_measurements', Call('seeded', sim.generate_ned_velocity_measurements, [sub, 0.5], seed_arg='rng',
+    add('sim.generate_ned_velocity_measurements', Call('seeded', sim.generate_ned_velocity_measurements, [sub, 0.5], seed_arg='rng', labelled=[0],
                                                        schema=lambda r: None if list(r.columns) == VEL and r.index.equals(sub.index) else f'columns {list(r.columns)}'))
-    add('sim.generate_body_velocity_measurements', Call('seeded', sim.generate_body_velocity_measurements, [sub, 0.5], seed_arg='rng',
+    add('sim.generate_body_velocity_measurements', Call('seeded', sim.generate_body_velocity_measurements, [sub, 0.5], seed_arg='rng', labelled=[0],
                                                         schema=lambda r: None if list(r.columns) == ['VX', 'VY', 'VZ'] and r.index.equals(sub.index) else f'columns {list(r.columns)}'))
     add('sim.generate_pva_error', Call('seeded', sim.generate_pva_error, [1.0, 0.5, 0.1, 0.3], seed_arg='rng',
                                        schema=lambda r: None if list(r.index) == TERR else f'labels {list(r.index)}'))
     pe = sim.generate_pva_error(1, 1, 1, 1, 0)
-    add('sim.perturb_pva', Call('pva', sim.perturb_pva, [traj.iloc[0], pe], schema=lambda r: None if list(r.index) == TRAJ else f'labels {list(r.index)}'))
+    add('sim.perturb_pva', Call('pva', sim.perturb_pva, [traj.iloc[0], pe], schema=lambda r: None if list(r.index) == TRAJ else f'labels {list(r.index)}', labelled=[0, 1]))
     add('sim.Turntable', Call('ctor', sim.Turntable, [np.array([50., 60, 100])], kwargs=dict(table_rph=np.array([0.1, 0.2, 30.])), vary=[0], compare=False))
     add('sim.Turntable.rotate', Call('rotate', lambda tt, *a: tt.rotate(*a), ['inner', 90.0], self_obj=lambda: sim.Turntable([50., 60, 100]),
                                      self_allowed={'inner_angle', 'outer_angle', 'time', 'actions'}, compare=False))
@@ -244,46 +247,46 @@ def specs(rng):
                                    self_allowed={'time', 'actions'}, compare=False))
     # ---- strapdown
     for st in ('rate', 'increment'):
-        add('strapdown.compute_increments_from_imu', Call(st, strapdown.compute_increments_from_imu, [imu, st], schema=schema_increments))
-    add('strapdown.Integrator', Call('ctor', lambda p, wa: strapdown.Integrator(p, wa).trajectory, [traj.iloc[0], True], schema=schema_trajectory),
-        Call('ctor2d', lambda p, wa: strapdown.Integrator(p, wa).trajectory, [traj.iloc[0], False], schema=schema_trajectory))
+        add('strapdown.compute_increments_from_imu', Call(st, strapdown.compute_increments_from_imu, [imu, st], schema=schema_increments, labelled=[0]))
+    add('strapdown.Integrator', Call('ctor', lambda p, wa: strapdown.Integrator(p, wa).trajectory, [traj.iloc[0], True], schema=schema_trajectory, labelled=[0]),
+        Call('ctor2d', lambda p, wa: strapdown.Integrator(p, wa).trajectory, [traj.iloc[0], False], schema=schema_trajectory, labelled=[0]))
     mkI = lambda: strapdown.Integrator(traj.iloc[0])        # noqa: E731
     allowed_I = {'lla', 'velocity_n', 'mat_nb', 'trajectory'}
-    add('strapdown.Integrator.integrate', Call('all', lambda I, x: I.integrate(x), [inc], self_obj=mkI, self_allowed=allowed_I, schema=schema_trajectory))
-    add('strapdown.Integrator.predict', Call('row', lambda I, x: I.predict(x), [inc.iloc[0]], self_obj=mkI, self_allowed={'lla', 'velocity_n', 'mat_nb'},
+    add('strapdown.Integrator.integrate', Call('all', lambda I, x: I.integrate(x), [inc], self_obj=mkI, self_allowed=allowed_I, schema=schema_trajectory, labelled=[0]))
+    add('strapdown.Integrator.predict', Call('row', lambda I, x: I.predict(x), [inc.iloc[0]], self_obj=mkI, self_allowed={'lla', 'velocity_n', 'mat_nb'}, labelled=[0],
                                              schema=lambda r: None if list(r.index) == TRAJ else f'labels {list(r.index)}'))
     add('strapdown.Integrator.get_time', Call('get', lambda I: I.get_time(), [], self_obj=mkI))
     add('strapdown.Integrator.get_pva', Call('get', lambda I: I.get_pva(), [], self_obj=mkI))
-    add('strapdown.Integrator.set_pva', Call('set', lambda I, p: I.set_pva(p), [traj.iloc[1] * 1.0], self_obj=mkI, self_allowed=allowed_I))
+    add('strapdown.Integrator.set_pva', Call('set', lambda I, p: I.set_pva(p), [traj.iloc[1] * 1.0], self_obj=mkI, self_allowed=allowed_I, labelled=[0]))
     # the no-altitude mode with a state whose vertical velocity is not zero (the object may normalise its own copy, never the caller's)
     pva_vd = traj.iloc[0] * 1.0
     pva_vd['VD'] = -0.64
     mkI2 = lambda: strapdown.Integrator(pva_vd, False)        # noqa: E731
     add('strapdown.Integrator', Call('ctor2d-vd', lambda p, wa: strapdown.Integrator(p, wa).trajectory, [pva_vd, False], schema=schema_trajectory))
     add('strapdown.Integrator.set_pva', Call('set2d-vd', lambda I, p: I.set_pva(p), [pva_vd * 1.0], self_obj=mkI2, self_allowed=allowed_I))
-    add('strapdown.Integrator.integrate', Call('2d', lambda I, x: I.integrate(x), [inc], self_obj=mkI2, self_allowed=allowed_I, schema=schema_trajectory))
-    add('strapdown.Integrator.predict', Call('2d', lambda I, x: I.predict(x), [inc.iloc[0]], self_obj=mkI2, self_allowed={'lla', 'velocity_n', 'mat_nb'}))
+    add('strapdown.Integrator.integrate', Call('2d', lambda I, x: I.integrate(x), [inc], self_obj=mkI2, self_allowed=allowed_I, schema=schema_trajectory, labelled=[0]))
+    add('strapdown.Integrator.predict', Call('2d', lambda I, x: I.predict(x), [inc.iloc[0]], self_obj=mkI2, self_allowed={'lla', 'velocity_n', 'mat_nb'}, labelled=[0]))
     # ---- error model
     em3, em2 = error_model.InsErrorModel(True), error_model.InsErrorModel(False)
     pr = pd.concat([traj.iloc[3], pd.Series([.1, .2, .3], index=RATE)])
     lever = np.array([1., 2, 3])
     add('error_model.InsErrorModel', Call('ctor', lambda wa: error_model.InsErrorModel(wa).states, [True]))
     for tag, em in (('3d', em3), ('2d', em2)):
-        add('error_model.InsErrorModel.system_matrices', Call('traj/' + tag, em.system_matrices, [traj]), Call('pva/' + tag, em.system_matrices, [traj.iloc[2]]))
-        add('error_model.InsErrorModel.transform_to_output', Call('traj/' + tag, em.transform_to_output, [traj]), Call('pva/' + tag, em.transform_to_output, [traj.iloc[2]]))
-        add('error_model.InsErrorModel.transform_to_internal', Call('pva/' + tag, em.transform_to_internal, [traj.iloc[2]]))
-        add('error_model.InsErrorModel.correct_pva', Call('pva/' + tag, em.correct_pva, [traj.iloc[2], rng.standard_normal(em.n_states) * 1e-3], nd=[1],
+        add('error_model.InsErrorModel.system_matrices', Call('traj/' + tag, em.system_matrices, [traj], labelled=[0]), Call('pva/' + tag, em.system_matrices, [traj.iloc[2]], labelled=[0]))
+        add('error_model.InsErrorModel.transform_to_output', Call('traj/' + tag, em.transform_to_output, [traj], labelled=[0]), Call('pva/' + tag, em.transform_to_output, [traj.iloc[2]], labelled=[0]))
+        add('error_model.InsErrorModel.transform_to_internal', Call('pva/' + tag, em.transform_to_internal, [traj.iloc[2]], labelled=[0]))
+        add('error_model.InsErrorModel.correct_pva', Call('pva/' + tag, em.correct_pva, [traj.iloc[2], rng.standard_normal(em.n_states) * 1e-3], nd=[1], labelled=[0],
                                                         schema=lambda r: None if list(r.index) == TRAJ else f'labels {list(r.index)}'))
-        add('error_model.InsErrorModel.position_error_jacobian', Call('lever/' + tag, em.position_error_jacobian, [pr, lever], vary=[1]),
-            Call('nolever/' + tag, em.position_error_jacobian, [pr]))
-        add('error_model.InsErrorModel.ned_velocity_error_jacobian', Call('lever/' + tag, em.ned_velocity_error_jacobian, [pr, lever], vary=[1]),
-            Call('nolever/' + tag, em.ned_velocity_error_jacobian, [traj.iloc[3]]))
-        add('error_model.InsErrorModel.body_velocity_error_jacobian', Call('pva/' + tag, em.body_velocity_error_jacobian, [pr]))
+        add('error_model.InsErrorModel.position_error_jacobian', Call('lever/' + tag, em.position_error_jacobian, [pr, lever], vary=[1], labelled=[0]),
+            Call('nolever/' + tag, em.position_error_jacobian, [pr], labelled=[0]))
+        add('error_model.InsErrorModel.ned_velocity_error_jacobian', Call('lever/' + tag, em.ned_velocity_error_jacobian, [pr, lever], vary=[1], labelled=[0]),
+            Call('nolever/' + tag, em.ned_velocity_error_jacobian, [traj.iloc[3]], labelled=[0]))
+        add('error_model.InsErrorModel.body_velocity_error_jacobian', Call('pva/' + tag, em.body_velocity_error_jacobian, [pr], labelled=[0]))
         add('error_model.propagate_errors', Call('const/' + tag, error_model.propagate_errors, [traj, pe, np.array([1e-5, 0, 0]), np.array([0, 1e-3, 0]), tag == '3d'],
-                                                 vary=[2, 3], schema=lambda r: schema_traj_error(r[0])),
+                                                 vary=[2, 3], labelled=[0, 1], schema=lambda r: schema_traj_error(r[0])),
             Call('per-stamp/' + tag, error_model.propagate_errors, [traj, None, np.tile([1e-5, 0, 0], (len(traj), 1)), np.tile([0, 1e-3, 0.], (len(traj), 1)), tag == '3d'],
-                 vary=[2, 3], schema=lambda r: schema_traj_error(r[0])))
-    add('error_model.propagate_errors', Call('defaults', error_model.propagate_errors, [traj], schema=lambda r: schema_traj_error(r[0])))
+                 vary=[2, 3], labelled=[0], schema=lambda r: schema_traj_error(r[0])))
+    add('error_model.propagate_errors', Call('defaults', error_model.propagate_errors, [traj], schema=lambda r: schema_traj_error(r[0]), labelled=[0]))
     # ---- kalman
     P = np.diag(rng.uniform(1, 2, 4))
     Hm = rng.standard_normal((2, 4))
@@ -294,6 +297,11 @@ def specs(rng):
     xm = rng.standard_normal(12) * 1e-3
     add('inertial_sensor.EstimationModel', Call('ctor', lambda *a: vars(inertial_sensor.EstimationModel(*a)),
                                                 [np.array([0.1, 0, 0.2]), np.array([0.01, 0.01, 0]), np.array([1e-3, 0, 0]), 0.01 * np.eye(3)], vary=[0, 1, 2, 3]))
+    add('inertial_sensor.EstimationModel', Call('ctor-nonpositive-marks', lambda *a: vars(inertial_sensor.EstimationModel(*a)),
+                                                [np.array([-1.0, 0.1, 0.2]), np.array([0.01, -1.0, 0]), np.array([-1.0, 0, 1e-3]), np.array([[0.01, -1, 0], [0, 0.01, -0.5], [-1, 0, 0.01]])],
+                                                vary=[0, 1, 2, 3]),
+        Call('ctor-whole-numbers', lambda *a: vars(inertial_sensor.EstimationModel(*a)),
+             [np.array([1.0, 0, 2]), np.array([1.0, 1, 0]), np.array([1.0, 0, 0]), np.array([[1.0, 0, 2], [0, 1, 0], [3, 0, 1]])], vary=[0, 1, 2, 3]))
     add('inertial_sensor.EstimationModel.output_matrix', Call('stack', lambda m, r: m.output_matrix(r), [rng.standard_normal((5, 3))], vary=[0], self_obj=mk_model),
         Call('single', lambda m, r: m.output_matrix(r), [rng.standard_normal(3)], vary=[0], self_obj=mk_model))
     add('inertial_sensor.EstimationModel.reset_estimates', Call('reset', lambda m: m.reset_estimates(), [], self_obj=mk_model, self_allowed={'transform', 'bias'}))
@@ -322,7 +330,7 @@ def specs(rng):
         add('inertial_sensor.apply_imu_parameters', Call(st, lambda i, s, rng=None: inertial_sensor.apply_imu_parameters(
             i, s, inertial_sensor.Parameters(noise=0.1, bias=[1e-3, 0, 0], rng=rng), inertial_sensor.Parameters(noise=0.1, rng=None if rng is None else rng + 1)),
             [imu, st], seed_arg='rng', schema=schema_imu),
-            Call('defaults/' + st, inertial_sensor.apply_imu_parameters, [imu, st], schema=schema_imu))
+            Call('defaults/' + st, inertial_sensor.apply_imu_parameters, [imu, st], schema=schema_imu, labelled=[0]))
     # ---- measurements
     pos_data = sim.generate_position_measurements(traj.iloc[10::20], 1, 0)
     vel_data = sim.generate_ned_velocity_measurements(traj.iloc[10::20], 1, 0)
@@ -330,32 +338,41 @@ def specs(rng):
     tm = traj.index[10]
     add('measurements.Measurement', Call('ctor', lambda d: measurements.Measurement(d).data, [pos_data]))
     add('measurements.Measurement.compute_matrices', Call('abstract', lambda: _raises(lambda: measurements.Measurement(pos_data).compute_matrices(tm, pr, em3)), []))
-    add('measurements.Position', Call('ctor', lambda d, sd, l: measurements.Position(d, sd, l).compute_matrices(tm, pr, em3), [pos_data, 1.0, lever], vary=[2]))
-    add('measurements.NedVelocity', Call('ctor', lambda d, sd, l: measurements.NedVelocity(d, sd, l).compute_matrices(tm, pr, em3), [vel_data, 1.0, lever], vary=[2]))
-    add('measurements.BodyVelocity', Call('ctor', lambda d, sd: measurements.BodyVelocity(d, sd).compute_matrices(tm, pr, em3), [bod_data, 1.0]))
+    add('measurements.Position', Call('ctor', lambda d, sd, l: measurements.Position(d, sd, l).compute_matrices(tm, pr, em3), [pos_data, 1.0, lever], vary=[2], labelled=[0]))
+    add('measurements.NedVelocity', Call('ctor', lambda d, sd, l: measurements.NedVelocity(d, sd, l).compute_matrices(tm, pr, em3), [vel_data, 1.0, lever], vary=[2], labelled=[0]))
+    add('measurements.BodyVelocity', Call('ctor', lambda d, sd: measurements.BodyVelocity(d, sd).compute_matrices(tm, pr, em3), [bod_data, 1.0], labelled=[0]))
     for tag, em in (('3d', em3), ('2d', em2)):
-        add('measurements.Position.compute_matrices', Call('hit/' + tag, lambda m, *a: m.compute_matrices(*a), [tm, pr, em],
+        add('measurements.Position.compute_matrices', Call('hit/' + tag, lambda m, *a: m.compute_matrices(*a), [tm, pr, em], labelled=[1],
                                                            self_obj=lambda: measurements.Position(pos_data, 1.0, lever)),
-            Call('miss/' + tag, lambda m, *a: m.compute_matrices(*a), [tm + 0.01, pr, em], self_obj=lambda: measurements.Position(pos_data, 1.0, lever)))
-        add('measurements.NedVelocity.compute_matrices', Call('hit/' + tag, lambda m, *a: m.compute_matrices(*a), [tm, pr, em],
+            Call('miss/' + tag, lambda m, *a: m.compute_matrices(*a), [tm + 0.01, pr, em], labelled=[1], self_obj=lambda: measurements.Position(pos_data, 1.0, lever)))
+        add('measurements.NedVelocity.compute_matrices', Call('hit/' + tag, lambda m, *a: m.compute_matrices(*a), [tm, pr, em], labelled=[1],
                                                               self_obj=lambda: measurements.NedVelocity(vel_data, 1.0, lever)))
-        add('measurements.BodyVelocity.compute_matrices', Call('hit/' + tag, lambda m, *a: m.compute_matrices(*a), [tm, pr, em],
+        add('measurements.BodyVelocity.compute_matrices', Call('hit/' + tag, lambda m, *a: m.compute_matrices(*a), [tm, pr, em], labelled=[1],
                                                                self_obj=lambda: measurements.BodyVelocity(bod_data, 1.0)))
     # ---- filters (the documented exception: estimate state of the sensor models)
-    def fb(init, increments, gm, am, data, ts, wa):
-        meas = [measurements.Position(data, 1.0, lever)]
+    def fb(init, increments, gm, am, meas, ts, wa):
         r = filters.run_feedback_filter(init, 1, 1, 1, 1, increments, gm, am, measurements=meas, time_step=ts, with_altitude=wa)
         return dict(r), schema_filter_result(r, gm, am, meas)
 
-    def ff(nom, comp, gm, am, data, increments, ts, wa):
-        meas = [measurements.Position(data, 1.0, lever)]
+    def ff(nom, comp, gm, am, meas, increments, ts, wa):
         r = filters.run_feedforward_filter(nom, comp, 1, 1, 1, 1, gm, am, measurements=meas, increments=increments, time_step=ts, with_altitude=wa)
         return dict(r), schema_filter_result(r, gm, am, meas)
     mk_g = lambda: inertial_sensor.EstimationModel(bias_sd=1e-4, noise=1e-5, scale_misal_sd=[[1e-3, 0, 0], [0, 0, 0], [0, 0, 0]])      # noqa: E731
     mk_a = lambda: inertial_sensor.EstimationModel(bias_sd=1e-2, bias_walk=1e-4)      # noqa: E731
+    mk_meas = lambda: [measurements.Position(pos_data, 1.0, lever), measurements.NedVelocity(vel_data, 0.5, lever), measurements.BodyVelocity(bod_data, 0.5)]      # noqa: E731
+    rev = lambda d: d[list(d.columns)[::-1]].copy()      # noqa: E731
+    mk_meas_rev = lambda: [measurements.Position(rev(pos_data), 1.0, lever), measurements.NedVelocity(rev(vel_data), 0.5, lever), measurements.BodyVelocity(rev(bod_data), 0.5)]      # noqa: E731
+
+    def fb_pair(init, increments, wa):
+        a = filters.run_feedback_filter(init, 1, 1, 1, 1, increments, mk_g(), mk_a(), measurements=mk_meas(), time_step=0.5, with_altitude=wa)
+        b = filters.run_feedback_filter(init, 1, 1, 1, 1, increments, mk_g(), mk_a(), measurements=mk_meas_rev(), time_step=0.5, with_altitude=wa)
+        bad = purity.compare_flat(purity.flatten(dict(a)), purity.flatten(dict(b)), ulp=0)
+        return dict(a), (f'measurement tables with their labelled columns in another order change the filter result: {bad[:3]}' if bad else None)
     for wa in (True, False):
-        add('filters.run_feedback_filter', Call(f'wa={wa}', fb, [traj.iloc[0], inc, mk_g(), mk_a(), pos_data, 0.5, wa], schema=lambda r: r[1]))
-        add('filters.run_feedforward_filter', Call(f'wa={wa}', ff, [traj, traj * 1.0, mk_g(), mk_a(), pos_data, inc, 0.5, wa], schema=lambda r: r[1]))
+        add('filters.run_feedback_filter', Call(f'measurement-columns-reordered/wa={wa}', fb_pair, [traj.iloc[0], inc, wa], schema=lambda r: r[1], history=False))
+    for wa in (True, False):
+        add('filters.run_feedback_filter', Call(f'wa={wa}', fb, [traj.iloc[0], inc, mk_g(), mk_a(), mk_meas(), 0.5, wa], schema=lambda r: r[1], labelled=[0, 1]))
+        add('filters.run_feedforward_filter', Call(f'wa={wa}', ff, [traj, traj * 1.0, mk_g(), mk_a(), mk_meas(), inc, 0.5, wa], schema=lambda r: r[1], labelled=[0, 1, 5]))
     return S
 
 
@@ -444,6 +461,64 @@ def invoke(call, args, seed=None):
     return None, call.fn(*args, **kwargs)
 
 
+# private attributes of pyins objects handed in (memo fields) are not "arrays, tables or series passed to it": a memo that changes
+# behaviour is decided by the re-run / history monitors, not by its mere existence
+PRIVATE = re.compile(r'\._[A-Za-z0-9_]*(\[|$)')
+
+
+def canon(o):
+    """Label-sorted copy of a result (for comparing calls whose input tables had their columns in another order)."""
+    if isinstance(o, pd.DataFrame):
+        return o[sorted(o.columns, key=str)]
+    if isinstance(o, pd.Series):
+        return o[sorted(o.index, key=str)] if o.index.is_unique and all(isinstance(k, str) for k in o.index) else o
+    if isinstance(o, dict):
+        return {k: canon(v) for k, v in o.items()}
+    if isinstance(o, (list, tuple)):
+        return type(o)(canon(x) for x in o) if type(o) in (list, tuple) else o
+    return o
+
+
+def permute_labels(o, rng):
+    if isinstance(o, pd.DataFrame) and o.shape[1] > 1:
+        c = list(o.columns)
+        return o[c[1:] + c[:1]].copy() if rng.random() < 0.5 else o[c[::-1]].copy()
+    if isinstance(o, pd.Series) and len(o) > 1:
+        k = list(o.index)
+        return o[k[::-1]].copy()
+    return None
+
+
+def perturbed(o):
+    """Another valid input of the same shape / labels (values scaled by 1 + 2^-9); None if nothing to change."""
+    k = 1.0 + 2.0 ** -9
+    if isinstance(o, np.ndarray) and o.dtype.kind == 'f':
+        return o * k
+    if isinstance(o, (pd.DataFrame, pd.Series)) and all(np.issubdtype(d, np.floating) for d in (o.dtypes if isinstance(o, pd.DataFrame) else [o.dtype])):
+        return o * k
+    return None
+
+
+def overwrite(live, new):
+    """live <- new in place (same object identity, same buffers where the container allows it)."""
+    if isinstance(live, np.ndarray):
+        live[...] = new
+    elif isinstance(live, pd.Series):
+        for lab in new.index:
+            live[lab] = new[lab]
+    else:
+        for c in new.columns:
+            live[c] = new[c].values
+
+
+def anon_index(o, name):
+    if isinstance(o, pd.DataFrame) and o.index.name is not None:
+        o = o.copy()
+        o.index = pd.Index(np.asarray(o.index), name=name)
+        return o
+    return None
+
+
 def run_directed(name, calls, seeds, obs):
     out = []
 
@@ -485,6 +560,7 @@ def run_directed(name, calls, seeds, obs):
                 ch = purity.diff(before, after)
                 # the documented exception: estimate state of EstimationModel arguments of a filter
                 ch = [p for p in ch if not (name.startswith('filters.run_') and re.search(r'\.(transform|bias)$', p))]
+                ch = [p for p in ch if not PRIVATE.search(p)]
                 if ch:
                     out.append(vio('argument_modified', f'{where}: arguments changed by the call at {ch[:4]}'))
             if call.schema is not None:
@@ -568,6 +644,109 @@ def run_directed(name, calls, seeds, obs):
                             out.append(vio('single_vs_stacked', f'{where}: single input differs from the same row of the stacked call: {bad[:3]}'))
                     except Exception as e:
                         out.append(vio('form_rejected', f'{where}: single-row form raised {type(e).__name__}: {e}'))
+                out.extend(extra_forms(name, call, sd, where, bump))
+    return out
+
+
+def extra_forms(name, call, sd, where, bump):
+    """Further representations of the same input, and one call history, per call specification.
+
+    integer form   array_like arguments holding whole numbers: int64 ndarray and list of Python ints vs the same values as floats
+    index names    tables whose time index is unnamed / named otherwise (also: the caller's Index object must keep its name)
+    history        f(a1); a1 overwritten IN PLACE with a2's values; f(a1) must equal f(fresh copy of a2) computed beforehand, bit for bit
+                   (a cache keyed on object identity, or one that retained a reference to the caller's array, only shows here)
+    """
+    out = []
+    # ---- integer-valued inputs: int dtype / list of ints vs float dtype
+    pos = [i for i in call.vary if i not in call.no_int and isinstance(call.args[i], np.ndarray) and call.args[i].dtype.kind == 'f']
+    if pos and call.compare:
+        fl = [np.rint(a) if i in pos else clone(a) for i, a in enumerate(call.args)]
+        try:
+            _, rfl = invoke(call, [clone(a) for a in fl], sd)
+        except Exception:
+            rfl = None              # whole numbers are not a valid input for this call (nothing to compare)
+        if rfl is not None:
+            for form in ('int64', 'intlist'):
+                args = [(np.rint(a).astype(np.int64) if form == 'int64' else np.rint(a).astype(np.int64).tolist()) if i in pos else clone(a) for i, a in enumerate(call.args)]
+                try:
+                    _, ri = invoke(call, args, sd)
+                    bump('integer_form_comparisons')
+                    bad = purity.compare_flat(purity.flatten(rfl), purity.flatten(ri), ulp=call.ulp)
+                    if bad:
+                        out.append(vio('form_dependent_values', f'{where}: whole numbers passed as {"an int64 array" if form == "int64" else "a list of ints"} give '
+                                       f'different values than the same numbers as floats: {bad[:3]}'))
+                except Exception as e:
+                    out.append(vio('form_rejected', f'{where}: integer-typed form raised {type(e).__name__}: {e}'))
+    # ---- label-addressed tables with their columns in another order
+    if call.labelled and call.compare:
+        prng = np.random.Generator(np.random.PCG64(len(where)))
+        args = [permute_labels(a, prng) if i in call.labelled else None for i, a in enumerate(call.args)]
+        if any(a is not None for a in args):
+            args = [clone(b) if a is None else a for a, b in zip(args, call.args)]
+            try:
+                _, r0 = invoke(call, [clone(a) for a in call.args], sd)
+                _, rp = invoke(call, args, sd)
+                bump('permuted_column_runs')
+                if name.startswith('filters.run_') and isinstance(r0, tuple):
+                    r0, rp = r0[0], rp[0]          # (tables, schema verdict): the order of result columns follows the input's
+                bad = purity.compare_flat(purity.flatten(canon(r0)), purity.flatten(canon(rp)), ulp=call.ulp)
+                if bad:
+                    out.append(vio('form_dependent_values', f'{where}: the same labelled tables with their columns in another order give different values: {bad[:3]}'))
+            except Exception as e:
+                out.append(vio('form_rejected', f'{where}: labelled tables with permuted columns raised {type(e).__name__}: {e}'))
+    # ---- index names
+    for nm_ in (None, 'gps_time'):
+        args = [anon_index(a, nm_) for a in call.args]
+        if all(a is None for a in args):
+            break
+        args = [clone(b) if a is None else a for a, b in zip(args, call.args)]
+        shared = {}
+        for i, a in enumerate(args):                   # several tables of one call built on ONE Index object, as user code does
+            if isinstance(a, pd.DataFrame) and a.index.name == nm_:
+                key = (len(a), float(a.index[0]) if len(a) else 0.0, float(a.index[-1]) if len(a) else 0.0)
+                if key in shared and a.index.equals(shared[key]):
+                    a.index = shared[key]
+                else:
+                    shared[key] = a.index
+        snap = purity.snapshot(args)
+        names_before = [a.index.name for a in args if isinstance(a, pd.DataFrame)]
+        try:
+            _, rn = invoke(call, args, sd)
+        except Exception as e:
+            out.append(vio('form_rejected', f'{where}: tables with index name {nm_!r} raised {type(e).__name__}: {e}'))
+            continue
+        bump('index_name_runs')
+        if purity.snapshot(args) != snap or names_before != [a.index.name for a in args if isinstance(a, pd.DataFrame)]:
+            ch = purity.diff(snap, purity.snapshot(args))
+            ch = [p for p in ch if not (name.startswith('filters.run_') and re.search(r'\.(transform|bias)$', p))]
+            ch = [p for p in ch if not PRIVATE.search(p)]
+            if ch:
+                out.append(vio('argument_modified', f'{where}: tables with index name {nm_!r}: arguments changed by the call at {ch[:4]} '
+                               f'(index names {names_before} -> {[a.index.name for a in args if isinstance(a, pd.DataFrame)]})'))
+    # ---- one call history on long-lived argument objects
+    stateful = call.self_obj is not None and call.self_allowed
+    if call.history and call.compare and not stateful and not name.startswith('filters.run_'):
+        a2 = [perturbed(a) for a in call.args]
+        if any(x is not None for x in a2):
+            try:
+                target = [clone(b) if x is None else x for x, b in zip(a2, call.args)]
+                obj = call.self_obj() if call.self_obj is not None else None
+                kw = lambda: dict({k: clone(v) for k, v in call.kwargs.items()}, **({call.seed_arg: sd} if call.seed_arg is not None else {}))    # noqa: E731
+                run = (lambda args: call.fn(obj, *args, **kw())) if obj is not None else (lambda args: call.fn(*args, **kw()))
+                ref = purity.flatten(run([clone(a) for a in target]))
+                live = [clone(a) for a in call.args]
+                run(live)
+                for lv, x in zip(live, a2):
+                    if x is not None:
+                        overwrite(lv, x)
+                got = purity.flatten(run(live))
+                bump('history_replays')
+                bad = purity.compare_flat(ref, got, ulp=0)
+                if bad:
+                    out.append(vio('history_dependent_result', f'{where}: after a call, its argument objects were overwritten in place and the call repeated: '
+                                   f'the result differs from a call with fresh copies of the same values in {bad[:3]} (state carried between calls)'))
+            except Exception as e:
+                out.append(vio('exception', f'{where} (history replay): {type(e).__name__}: {e}'))
     return out
 
 
@@ -611,7 +790,7 @@ def _mk_around(nm, is_method):
         if before != after:
             ch = purity.diff(before, after)
             ch = [p for p in ch if not (nm.startswith('filters.run_') and re.search(r'\.(transform|bias)$', p))]
-            ch = [p for p in ch if not re.search(r'\.(rng|data_frame)$', p)]
+            ch = [p for p in ch if not re.search(r'\.(rng|data_frame)$', p) and not PRIVATE.search(p)]
             if ch and len(AMBIENT['violations']) < 10:
                 AMBIENT['violations'].append(vio('argument_modified', f'ambient: {nm} changed its arguments at {ch[:4]}'))
         return result
